@@ -90,7 +90,36 @@ class T(Task):
         pass
 
 
-CLASSES = {c.__name__: c for c in (Leaf, Two, FnGen, NoGen, Node, Pre, Out, Producer, T)}
+class Clamp(Config):
+    """__validate__ changes a parameter that enters the identifier (only above a bound)"""
+    v: Param[int] = 0
+    c: Param[Optional[Config]] = None
+    p: Annotated[Path, pathgenerator("clamp.txt")]
+
+    def __validate__(self):
+        if self.v > 50:
+            self.v = 16
+
+
+class TClamp(Task):
+    """a task whose __validate__ clamps one of its own parameters"""
+    v: Param[int] = 0
+    c: Param[Optional[Config]] = None
+    c2: Param[Optional[Config]] = None
+    l: Param[List[Config]] = []
+    d: Param[Dict[str, Config]] = {}
+    p: Annotated[Path, pathgenerator("out")]
+    q: Annotated[Path, pathgenerator("o.txt")]
+
+    def __validate__(self):
+        if self.v > 50:
+            self.v = 16
+
+    def execute(self):
+        pass
+
+
+CLASSES = {c.__name__: c for c in (Leaf, Two, FnGen, NoGen, Node, Pre, Out, Producer, T, Clamp, TClamp)}
 
 # declaration order of the (argument, file name) pairs, as the harness expects it; the driver
 # reports the order read off the real ObjectType.arguments and the check compares both
@@ -104,4 +133,6 @@ GENS = {
     "Out": [("p", "out.txt")],
     "Producer": [("p", "prod.txt")],
     "T": [("p", "out"), ("q", "o.txt")],
+    "Clamp": [("p", "clamp.txt")],
+    "TClamp": [("p", "out"), ("q", "o.txt")],
 }
